@@ -360,6 +360,9 @@ impl Target {
                     }
                 };
 
+                // Only an assignment to the whole variable makes its value a known constant:
+                // `x.a = 2` must not make `x` itself the constant `2`.
+                let value = if path.is_root() { value } else { None };
                 let details = Details { type_def, value };
                 state.local.insert_variable(ident.clone(), details);
             }
